@@ -163,6 +163,14 @@ theorem ladder_increasing (maxStep : Nat) : ∀ (fuel cur : Nat), 0 < cur →
       intro k hk
       exact lt_of_lt_of_le hnext (ladder_bounds maxStep fuel _ k hk).1
 
+/-- non-vacuity: a user cap that is not a rung (20000) — increasing, never above the cap, first attempt 500. -/
+example : (mxstepLadder 20000 10 500).Pairwise (· < ·) ∧ (∀ k ∈ mxstepLadder 20000 10 500, k ≤ 20000)
+    ∧ (mxstepLadder 20000 10 500).head? = some 500 := by
+  refine ⟨ladder_increasing 20000 10 500 (by decide), ?_, ladder_head 20000 9 500⟩
+  intro k hk
+  have := (ladder_bounds 20000 10 500 k hk).2
+  omega
+
 variable {Rows : Type}
 
 /-- **a failed integration is never reported as numbers.** -/
